@@ -104,6 +104,28 @@ class Ctx:
         self.notes.append("drive %s: %.1fs" % (" ".join(args[:3]), time.time() - t))
         return r
 
+
+    # ------------------------------------------------------------------ overlay tests (package main apps)
+    def overlay_test(self, app, cases_path, out_path, timeout=900, race=False):
+        """Run the injected TestVerifApps inside /repo/apps/<app> (package main) without touching the repository."""
+        ov = self.path("overlay_%s.json" % app)
+        with open(ov, "w") as f:
+            json.dump({"Replace": {os.path.join(REPO, "apps", app, "zz_verif_test.go"): os.path.join(HARNESS, "overlay", "apps_verif_test.go")}}, f)
+        e = dict(os.environ)
+        e.update(GOPROXY="off", GOSUMDB="off", GOTOOLCHAIN="local", VERIF_CASES=cases_path, VERIF_OUT=out_path)
+        e.pop("GOFLAGS", None)      # in-repo builds use the default read-only module mode (go.mod untouched)
+        cmd = ["go", "test", "-tags", "verif", "-vet=off", "-count=1", "-overlay", ov, "-run", "^TestVerifApps$", "-timeout", "%ds" % timeout]
+        if race:
+            cmd.append("-race")
+        cmd.append("./apps/" + app)
+        try:
+            r = subprocess.run(cmd, cwd=REPO, env=e, capture_output=True, text=True, timeout=timeout + 60)
+        except subprocess.TimeoutExpired:
+            raise Inconclusive("overlay test of %s timed out" % app)
+        if r.returncode != 0 or not os.path.exists(out_path):
+            raise Inconclusive("overlay test of %s failed rc=%d:\n%s\n%s" % (app, r.returncode, r.stdout[-3000:], r.stderr[-3000:]))
+        return r
+
     # ------------------------------------------------------------------ TLC
     def _tlc_dir(self):
         self.tlc_n += 1
